@@ -122,6 +122,7 @@ type Link struct {
 	blackhole bool
 	blockSend bool
 	failSends int
+	failSkip  int
 	failErr   error
 	sendCost  time.Duration
 	// jitter: PRNG-chosen durations of Send and Recv calls (see SetJitter)
@@ -189,8 +190,14 @@ func (l *Link) SetBlackhole(on, flush bool) {
 // FailNextSends makes the next n Send calls fail with err (a transient write
 // error of the transport: the packet is not sent, the link keeps working).
 func (l *Link) FailNextSends(n int, err error) {
+	l.FailSendsAfter(0, n, err)
+}
+
+// FailSendsAfter lets skip further Send calls pass and makes the n calls after
+// them fail with err.
+func (l *Link) FailSendsAfter(skip, n int, err error) {
 	l.mu.Lock()
-	l.failSends, l.failErr = n, err
+	l.failSkip, l.failSends, l.failErr = skip, n, err
 	l.mu.Unlock()
 }
 
@@ -280,7 +287,9 @@ func (l *Link) Send(ctx context.Context, b []byte) error {
 		<-ctx.Done()
 		return ctx.Err()
 	}
-	if l.failSends > 0 {
+	if l.failSends > 0 && l.failSkip > 0 {
+		l.failSkip--
+	} else if l.failSends > 0 {
 		l.failSends--
 		err := l.failErr
 		l.logf("write-error", l.sendIdx, Parse(b), 0)
